@@ -341,7 +341,10 @@ func RenameOverlay(p *Prog, read func(path string) ([]byte, error)) (map[string]
 			return float64(both) / float64(union)
 		}
 		pkgOf := func(n string) string { return n[:strings.LastIndex(n, ".<")] }
-		type pair struct{ old string; cand *typeObj }
+		type pair struct {
+			old  string
+			cand *typeObj
+		}
 		var pairs []pair
 		for old, oshape := range sigs {
 			if !strings.Contains(old, ".<") || tdecl[old] != nil {
@@ -1156,7 +1159,7 @@ func inlineAt(p *Prog, pk *packages.Package, file *ast.File, src []byte, site *i
 		}
 		tok = as.Tok.String()
 		if site.kind == "thread" && site.okv {
-			if b, ok := res.At(res.Len()-1).Type().Underlying().(*types.Basic); !ok || b.Kind() != types.Bool {
+			if b, ok := res.At(res.Len() - 1).Type().Underlying().(*types.Basic); !ok || b.Kind() != types.Bool {
 				return "", nil, "tested result is not a boolean"
 			}
 		}
